@@ -2642,7 +2642,7 @@ def regex_literal_ok(pat):
     return True
 
 
-@model(['new'], rself='regex::Regex', pred=lambda c: c.get('rcrate') == 'regex')
+@model(['new'], rself='regex::Regex', pred=lambda c: c.get('rcrate') == 'regex' and (c.get('rself') or '').split('<')[0] in ('regex::Regex', 'regex::regex::string::Regex', 'regex::bytes::Regex'))
 def regex_new(E, st, frame, b, t, c, args):
     dty = E.dest_ty(frame, t)
     ty = E.types.get(dty)
